@@ -15,3 +15,15 @@ claim("C18",
  "Proof of the failure-atomic advertisement chain only: coordinator.Client.CopyShard (and the sibling Client RPCs) return a non-nil error on any transport/decode error or when the response carries Err. Equality of shard contents through backup/restore is NOT decided by this technique.",
  "Client.dial is an assumed contract; response decoding is abstracted (arbitrary response).",
  "DESIGN.md 3/C18")
+claim("C02",
+ "Proof, for all sorted inputs of any length, of the kernels every read path funnels through: binary search (exact insertion point, no overflow, terminates), FindRange, Include (result is exactly the elements with min<=t<=max, in order, values aligned) and Exclude (exactly the others) for the five typed value slices of tsm1 and the six array types of tsdb/cursors; each generated copy is verified separately. The engine-level statement (cache/snapshot/file overlay under all interleavings) and Merge/Deduplicate are NOT decided; field-type conflict handling is claimed only where its obligations are listed in the evidence.",
+ "sort.* is not used by these kernels; copy/append follow the Go memory model built into govc.",
+ "DESIGN.md 3/C02")
+claim("C09",
+ "Proof of the same kernels (search/FindRange/Include/Exclude for all typed variants) that compaction's merge path is built from. The compaction iterators, planner and the install/abort ordering are NOT decided by the obligations registered so far.",
+ "as C02",
+ "DESIGN.md 3/C09")
+claim("C10",
+ "Proof that Exclude(min,max) removes exactly the points with min<=t<=max (inclusive at both ends, including min==max and the extreme int64 values), keeps every other point with its value and order, for all typed variants (tsm1 value slices and tsdb/cursors arrays); DeleteRangeWALEntry decoding is panic-free (shared with C13). Permanence across restart/compaction, crash points and concurrent snapshots are NOT decided.",
+ "as C02",
+ "DESIGN.md 3/C10")
